@@ -2,6 +2,7 @@ import FitProps.EndToEndLemmas
 import FitProps.EndToEndDescLemmas
 import FitProps.EndToEndBackLemmas
 import FitProps.EndToEndStrictLemmas
+import FitProps.EndToEndExpandLemmas
 import FitModel.ValidatorArith
 /-!
 # C01 — Encode then decode returns the messages that were written (END TO END: protocol values, the real validator)
@@ -25,7 +26,8 @@ PROPERTY THEOREMS: C01_e2e_actual, C01_e2e_roundtrip_partial, C01_e2e_reencode_p
 C01_e2e_dec_output_normal, C01_e2e_reencode, C01_e2e_reencode_normal, C01_e2e_full_fails_arr, C01_e2e_full_fails_zero,
 C01_e2e_full_fails_fffd, C01_e2e_known_array_is_array, C01_e2e_reencode_undersized_roundtrip, C01_e2e_reencode_fails_pieces, C01_e2e_reencode_fails_f64dev,
 C01_e2e_reencode_boolarr_roundtrip, C01_e2e_value_independent_of_byte_order, C01_e2e_roundtrip_strict_partial,
-C01_e2e_full_fails_emptystr, C01_e2e_norm_bool_witness, C01_e2e_actual_exact, C01_e2e_roundtrip_exact_partial
+C01_e2e_full_fails_emptystr, C01_e2e_norm_bool_witness, C01_e2e_actual_exact, C01_e2e_roundtrip_exact_partial,
+C01_e2e_expansion_on
 
 Findings of the pinned tree (open, see known_findings.jsonl): KF-C01-arr (F03), KF-C01-zero (F04), KF-C01-fffd (F02): the
 full statement `C01_e2e_roundtrip_full` is false on them (`C01_e2e_full_fails_*`); `C01_e2e_roundtrip_partial` excludes
@@ -904,7 +906,7 @@ theorem C01_e2e_norm_bool_witness :
     (∀ kept ∈ (encodeChain (kfCfg false) boolFiles 0).1, inDomain boolFac kept = true ∧ noKF boolFac kept = true) := by
   decide +kernel
 
-/-! ### component expansion ON (reading (ii) of the property; audit X3): STATED, NOT PROVED -/
+/-! ### component expansion ON (reading (ii) of the property; audit X3) -/
 
 /-- the field numbers of message `m` that are destinations of a component of some field of that message -/
 def compDestsOf (fac : Fit.DecApi.Factory) (m : Nat) : List Nat :=
@@ -919,23 +921,70 @@ def OnMinusExpanded (fac : Fit.DecApi.Factory) (on off : Fit.DecApi.Msg) : Prop 
       f.array = g.array ∧ ((compDestsOf fac off.num).contains g.num = false → f.value = g.value))
     (on.fields.filter (!·.expanded)) off.fields
 
-/-- **the expansion-on corollary (DESIGN §3 C01 reading (ii)), as a statement about the decoder-API model — NOT PROVED.** For
-every byte stream and every factory with an acyclic component graph that puts no components on file_id / field_description /
-developer_data_id: the `Next` / `Decode` loop with component expansion ON ends as the loop with expansion off does and returns
-the same sequences, message by message equal after deleting the fields marked expanded, except the values of component
-destinations (`OnMinusExpanded`); with `C01_e2e_actual_exact` this gives the round trip under expansion ON.
-What it needs and is not done here: (1) an invariant of `Fit.DecApi.expandAll` in the style of `C05_untouched` (C05's theorems
-are about the other expansion model, `Fit.Expand.decodeTail`, which has the real scale / offset arithmetic and sub-fields;
-`Fit.DecApi` has scale-1 components and no sub-fields); (2) a simulation of the decoder with expansion on by the decoder with
-expansion off through every function of the record loop (they differ only in `noteAcc`, the expansion step and the
-accumulator). On the REAL code the reading is tied for the standard factory by the `px=1` lines of family `rte2e` (default
-decoder, expansion ON, against the model's expansion-off answer with destinations masked). -/
-def C01_e2e_expansion_on : Prop :=
+/-- **THE EXPANSION-ON COROLLARY (DESIGN §3 C01 reading (ii)), a theorem about the decoder-API model.** For every byte stream
+and every factory with an acyclic component graph (`FacOK`: the contract of `decoder.Factory`) that puts no components on
+file_id / field_description / developer_data_id (the messages the decoder itself reads back): the `Next` / `Decode` loop with
+component expansion ON ends as the loop with expansion OFF does — same error or none — and returns the same sequences:
+same headers and CRCs, and message by message the same header byte, message number and developer fields, and — after
+deleting the fields marked expanded — the same fields in the same order with the same number, base type and attributes and
+the same VALUE, except the values of fields whose number is the destination of a component of that message
+(`OnMinusExpanded`; such a wire field is overwritten / extended by the expansion of a component present in the message). So every
+`C01_e2e_*` theorem, stated for the decoder with expansion off (`PlainOpts`), holds for the decoder with expansion ON modulo
+this masking: compose with `C01_e2e_actual_exact` (`decodeValues` = `proj` of `decodeChain`, and `proj` deletes the expanded
+fields). The hypotheses on listeners / broadcast-only are not used by the proof (events are not compared).
+Proof (FitProps/EndToEndExpand*Lemmas.lean): `expandAll` only appends fields marked expanded or changes the value of a field
+whose number is a component destination (`expandAll_sim`), and is the identity on a message without components
+(`expandAll_nocomps`: the look-ups built from file_id / field_description / developer_data_id agree); everything else of the
+record loop reads neither the option, nor the accumulator, nor the messages decoded so far (`…_ov`), the timestamp state is
+computed from the wire fields before expansion; induction over the record loop and over the `Next` / `Decode` loop
+(`decodeMessages_sim`, `decodeLoop_sim`). On the REAL code the reading is tied for the standard factory by the `px=1` lines of
+family `rte2e`. -/
+theorem C01_e2e_expansion_on :
   ∀ (o : Fit.DecApi.Opts) (bytes : List Nat), o.bo = false → o.ml = false → o.dl = false → Fit.DecApi.FacOK o.fac →
     (∀ e ∈ o.fac, e.mesgNum = 0 ∨ e.mesgNum = 206 ∨ e.mesgNum = 207 → e.info.comps = []) → (∀ b ∈ bytes, b < 256) →
     (decodeChain { o with exp := true } bytes).2 = (decodeChain { o with exp := false } bytes).2 ∧
     AllMatch (fun (f g : Fit.DecApi.Fit) => f.hdr = g.hdr ∧ f.crc = g.crc ∧ AllMatch (OnMinusExpanded o.fac) f.msgs g.msgs)
-      (decodeChain { o with exp := true } bytes).1 (decodeChain { o with exp := false } bytes).1
+      (decodeChain { o with exp := true } bytes).1 (decodeChain { o with exp := false } bytes).1 := by
+  intro o bytes _ _ _ hf hkey hb
+  exact Fit.DecApi.expansion_on_main o bytes hf hkey hb
+
+/-- a factory with the nested components of the profile's record message: compressed_speed_distance (8) → speed (6, 12 bits),
+distance (5, 12 bits, accumulated); speed (6) → enhanced_speed (73) -/
+def expFac : Fit.DecApi.Factory :=
+  [⟨20, 8, ⟨true, 13, false, true, false, [⟨6, false, 12⟩, ⟨5, true, 12⟩]⟩⟩, ⟨20, 6, ⟨true, 132, false, false, false, [⟨73, false, 16⟩]⟩⟩,
+   ⟨20, 73, ⟨true, 134, false, false, false, []⟩⟩, ⟨20, 5, ⟨true, 134, false, false, true, []⟩⟩]
+def expO : Fit.DecApi.Opts := { chk := false, fac := expFac }
+/-- one sequence: a definition of record (compressed_speed_distance: 3 bytes, speed: uint16) and two records -/
+def expBytes : List Nat := [14, 32, 0, 0, 24, 0, 0, 0, 46, 70, 73, 84, 0, 0,
+  0x40, 0, 0, 20, 0, 2, 8, 3, 13, 6, 2, 132,
+  0x00, 0x34, 0x12, 0x56, 0x10, 0x00,
+  0x00, 0x00, 0x20, 0x57, 0xFF, 0xFF,
+  0, 0]
+
+/-- Non-vacuity: the factory and the stream meet the hypotheses, and the first record ACTUALLY EXPANDS: with expansion on it
+comes back with the wire field speed (a component destination) overwritten by the speed taken out of
+compressed_speed_distance (0x234 instead of the 0x0010 on the wire) and with enhanced_speed and distance added, marked
+expanded; with expansion off it comes back as written. -/
+example : Fit.DecApi.FacOK expFac ∧ (∀ e ∈ expFac, e.mesgNum = 0 ∨ e.mesgNum = 206 ∨ e.mesgNum = 207 → e.info.comps = []) ∧
+    (∀ b ∈ expBytes, b < 256) ∧
+    (decodeChain { expO with exp := true } expBytes).2 = none ∧
+    (decodeChain { expO with exp := true } expBytes).1.map (fun f => f.msgs.map fun m => m.fields.map fun f => (f.num, f.value, f.expanded)) =
+      [[[(8, .sliceUint8 [52, 18, 86], false), (6, .uint16 564, false), (73, .uint32 564, true), (5, .uint32 1377, true)],
+        [(8, .sliceUint8 [0, 32, 87], false), (6, .uint16 65535, false)]]] ∧
+    (decodeChain { expO with exp := false } expBytes).1.map (fun f => f.msgs.map fun m => m.fields.map fun f => (f.num, f.value, f.expanded)) =
+      [[[(8, .sliceUint8 [52, 18, 86], false), (6, .uint16 16, false)],
+        [(8, .sliceUint8 [0, 32, 87], false), (6, .uint16 65535, false)]]] := by
+  refine ⟨⟨fun _ n => if n = 8 then 2 else if n = 6 then 1 else 0, ?_, ?_⟩, by decide, by decide, by decide +kernel, by decide +kernel, by decide +kernel⟩
+  · intro m n; simp only; split <;> (try split) <;> decide
+  · intro e he c hc
+    simp only [expFac, List.mem_cons, List.mem_nil_iff, or_false] at he
+    rcases he with rfl | rfl | rfl | rfl
+    · simp only [List.mem_cons, List.mem_nil_iff, or_false] at hc
+      rcases hc with rfl | rfl <;> decide
+    · simp only [List.mem_cons, List.mem_nil_iff, or_false] at hc
+      subst hc; decide
+    · cases hc
+    · cases hc
 
 /-! ### the value layer, stated on its own -/
 
